@@ -928,6 +928,9 @@ def cases_subset(ctx):
         {"feats": [["p_2", 5]], "ali": None, "ref": ["p_2", "q"]},
         {"feats": [["u%d" % i, (i * 3) % 5 + 1] for i in range(6)], "ali": ["u0", "u5"], "ref": ["u%d" % i for i in range(6)]},
         {"feats": [], "ali": [], "ref": []},
+        # ids one of which is a prefix of another, followed by a character that sorts before the suffix's first character:
+        # the order of the ids differs from the order of the file names
+        {"feats": [["u1", 2], ["u1-a", 3], ["u1-b", 1], ["u10", 4]], "ali": ["u1", "u1-a"], "ref": ["u1", "u1-a", "u1-b", "u10"]},
     ]
     if not ctx.quick:
         corpora.append({"feats": [["u%02d" % i, (i * 7) % 6 + 1] for i in range(11)], "ali": ["u%02d" % i for i in range(0, 11, 2)], "ref": ["u%02d" % i for i in range(11)]})
